@@ -122,12 +122,7 @@ Proof.
   rewrite H1. apply IH, H2.
 Qed.
 
-Lemma canonical_digits s : canonical_dec s = true -> all_b is_ascii_digit s = true.
-Proof.
-  destruct s as [|c [|d s]]; cbn [canonical_dec]; [discriminate| |].
-  - intros H. cbn. rewrite H. reflexivity.
-  - intros H. apply andb_true_iff in H. tauto.
-Qed.
+
 
 Theorem fn_hash_int_digits v n : all_b is_ascii_digit (fn_hash_int v n false) = true.
 Proof. unfold fn_hash_int, hash_int. apply take_n_digits, canonical_digits, print_dec_canonical. Qed.
